@@ -317,6 +317,14 @@ def whole_file(ctx, rid):
                 c.name.endswith("formatting::format_project") for c in f.calls()):
             cl = f
     if cl is None:
+        # the closure body may have been given a name: a private method reached only from format_input_inner
+        import c05
+        roots = {g.id: g.name for g in p.fns.values() if g.id.endswith("::format_input_inner")}
+        for f in p.fns.values():
+            if f.kind != "Closure" and any(c.name.endswith("formatting::format_project") for c in f.calls()) \
+                    and c05._sole_allowed_ancestor(p, f.id, roots) is not None:
+                cl = f
+    if cl is None:
         r.undecidable(rid, "closure of format_input_inner calling format_project not found")
     else:
         ds = [c for c in cl.calls() if c.name.endswith("Config::disable_all_formatting")]
